@@ -170,3 +170,9 @@ def run(ctx):
     work2 = [(c, v) for c in cs for v in (("CAMEL", "json", "cls"), ("SNAKE", "dict", "inst"))]
     ev2 = ctx.pmap(c04.rtjson_event, work2)
     ctx.validate("Trace_Json", ev2, header={"schema": jsontree.schema_for_tla(schema)}, shard=2000)
+
+
+def redrive(ev):
+    if "def" in ev.get("case", {}):
+        return run_enum((ev["case"]["def"], ev["case"]["ops"]))
+    return None
